@@ -8,6 +8,12 @@
 (*   sc   : scenario;  ev : Seq([s |-> site, a |-> args]) in log order       *)
 (*   obs  : [exit |-> "ok" | "err" | "killed", temps |-> temp files found,   *)
 (*           files |-> Seq([exists, isOrig, isNew, mode])]                   *)
+(* Two commands run one after the other on the same files (the retry after  *)
+(* a crash) are ONE line: the first run's log, then the harness's records    *)
+(* [s |-> "exit", a |-> <<how the first process ended>>] and                 *)
+(* [s |-> "restart"], then the second run's log; obs is the directory after  *)
+(* the second run, with isNew2 = "equals what the second command prints for  *)
+(* this file alone".                                                         *)
 (***************************************************************************)
 EXTENDS InPlace, Json, TLCExt
 
@@ -37,6 +43,11 @@ TStep == /\ l <= Len(T.ev) /\ ~done /\ l' = l + 1 /\ UNCHANGED <<t, done>>
               [] Ev.s = "closed"        -> Closed
               [] Ev.s = "renamed"       -> Renamed
               [] Ev.s = "chmodded"      -> Chmodded
+              [] Ev.s = "exit"          -> CASE Ev.a[1] = "killed" -> Crash
+                                             [] Ev.a[1] = "ok"     -> Finish
+                                             [] Ev.a[1] = "err"    -> (exit = "err" /\ UNCHANGED vars) \/ Abort
+                                             [] OTHER -> FALSE
+              [] Ev.s = "restart"       -> Restart
               [] OTHER -> FALSE
 
 \* the directory as found afterwards is what the specification says it is
@@ -48,6 +59,8 @@ Matches(o) ==
          ELSE /\ x.exists
               /\ (content[f] = "orig" => x.isOrig)
               /\ (content[f] = "new" => x.isNew)
+              /\ (content[f] = "new2" => "isNew2" \in DOMAIN x /\ x.isNew2)
+              /\ content[f] \in {"orig", "new", "new2"}
               /\ x.mode = mode[f]
 
 TConclude == /\ l = Len(T.ev) + 1 /\ ~done /\ done' = TRUE /\ UNCHANGED <<t, l>>
